@@ -458,7 +458,9 @@ func genChainFacts(repo string) string {
 	g.fn("router_Use", "`(*Router).Use`", comp, cfWhole(&router, "Router", "Use"))
 	g.fn("router_Mount", "`(*Router).Mount`: inherited parent middleware, sub-router middleware, extras", append(comp, "InheritMiddleware", "mergeSubrouterRoutes"), cfWhole(&router, "Router", "Mount"))
 	g.fn("router_mountRoute", "`(*Router).mountRoute`: mount chain, then the route's handlers", append(comp, "addRouteInternal"), cfWhole(&router, "Router", "mountRoute"))
-	g.fn("router_extractAndMount", "`(*Router).extractAndMountFromNode` (mount of a warmed-up sub-router: finding K02b lives here)", append(comp, "addRouteInternal", ".handlers"), cfWhole(&router, "Router", "extractAndMountFromNode"))
+	g.fn("router_mergeSubrouterRoutes", "`(*Router).mergeSubrouterRoutes`: every route of the sub-router's route log is mounted from the route itself (K02b fix)", []string{".routeLog", "mountRoute(", "Trees", "range "}, cfWhole(&router, "Router", "mergeSubrouterRoutes"))
+	g.fn("router_enqueueRoute", "`(*Router).enqueueRoute`: the route is logged whether it is registered at once or deferred", []string{"logRoute(", ".warmedUp", "RegisterRoute()", ".pendingRoutes = append"}, cfWhole(&router, "Router", "enqueueRoute"))
+	g.fn("router_logRoute", "`(*Router).logRoute`", []string{".routeLog"}, cfWhole(&router, "Router", "logRoute"))
 	g.fn("router_vgroup_Handle", "`(*VersionGroup).Handle`", comp, cfWhole(&router, "VersionGroup", "Handle"))
 
 	var out strings.Builder
